@@ -407,7 +407,9 @@ class C05(Check):
                     ra.append(a)
                     dec.append(d)
         ra, dec = self._shuffle(rng, ra, dec)
-        case = {'L': L, 'cs': rng.choice([10.0, 30.0]), 'ra': ra, 'dec': dec, 'kind': kind, 'planted': shape if kind == 'polar' else 'ew_pairs'}
+        # seam: with chunks of 30 deg the grid is clamped at a pole, no RA offset is accepted and RA 0 cuts the field in two
+        cs = rng.choice([10.0, 30.0]) if kind == 'polar' else 10.0
+        case = {'L': L, 'cs': cs, 'ra': ra, 'dec': dec, 'kind': kind, 'planted': shape if kind == 'polar' else 'ew_pairs'}
         case['variants'] = [{'p': rng.getrandbits(32), 'cs': case['cs']}] if n <= 700 else []
         return case
 
